@@ -228,7 +228,73 @@ def num_rule(ctx: Ctx) -> None:
         raise AnalysisError("R19.num: TOY value tokens not found in the grammar")
     src = srcs[0] if len(srcs) == 1 else alt(srcs, False)
     arg = f.params[1]
+    # the conversion under "the token starts with 0x" and under its negation, read off the normal form (an if / else with one call per
+    # arm, one call with conditional arguments, locals in between: all the same)
+    from ..parsershape import normal_flow
+    from ..flowspec import _cond_ast
+    from ..symflow import parse_expr
+    nfl = normal_flow(m, f)
+    npr = nfl.cprinter
+    hex_test = parse_expr(f"{arg}.startswith('0x')")
+
+    def conv_under(pol: bool):
+        assume = npr._bool(hex_test, pol)
+        found = set()
+        for ret in nfl.returns:
+            if ret.value is None:
+                continue
+            if ret.cond:
+                t_ = npr._tables([npr._mk("and", [npr._bool(_cond_ast(ret.cond)), assume])])
+                if t_ is not None and t_[1][0] == 0:
+                    continue
+            v = npr.resolve_under(ret.value, assume)
+            calls_ = [n for n in ast.walk(v) if isinstance(n, ast.Call) and (ast.unparse(n.func) == "int" or ast.unparse(n.func).endswith("._literal_to_int"))]
+            if len(calls_) != 1 or any(isinstance(x, ast.IfExp) for x in ast.walk(calls_[0])):
+                return None
+            n = calls_[0]
+            base = 10 if ast.unparse(n.func) == "int" else 0
+            for k in n.keywords:
+                if k.arg == "base":
+                    base = k.value.value if isinstance(k.value, ast.Constant) else None
+            if ast.unparse(n.func) == "int" and len(n.args) > 1:
+                base = n.args[1].value if isinstance(n.args[1], ast.Constant) else None
+            if ast.unparse(n.func) != "int" and len(n.args) > 3:
+                base = n.args[3].value if isinstance(n.args[3], ast.Constant) else None
+            a0 = n.args[0] if n.args else None
+            if isinstance(a0, ast.Name) and a0.id == arg:
+                strip = 0
+            elif isinstance(a0, ast.Subscript) and isinstance(a0.value, ast.Name) and a0.value.id == arg and isinstance(a0.slice, ast.Slice) \
+                    and isinstance(a0.slice.lower, ast.Constant) and a0.slice.upper is None and a0.slice.step is None:
+                strip = a0.slice.lower.value
+            elif isinstance(a0, ast.Call) and isinstance(a0.func, ast.Attribute) and a0.func.attr == "removeprefix" and isinstance(a0.func.value, ast.Name) \
+                    and a0.func.value.id == arg and len(a0.args) == 1 and isinstance(a0.args[0], ast.Constant) and a0.args[0].value == "0x" and pol:
+                strip = 2
+            else:
+                return None
+            found.add((base, strip))
+        return found
+
+    split = {True: conv_under(True), False: conv_under(False)}
+    distinguishes = split[True] is not None and split[False] is not None and len(split[True]) == 1 and len(split[False]) == 1 and split[True] != split[False]
     iff = next((n for n in f.node.body if isinstance(n, ast.If) and ast.unparse(n.test) == f"{arg}.startswith('0x')"), None)
+    if distinguishes:
+        for label, keep in (("hexadecimal", True), ("decimal", False)):
+            base, strip = next(iter(split[keep]))
+            if base is None:
+                r.check(False, f"_value_to_int|{label}", f.loc(), f"the base of the conversion of {label} operands is not a constant")
+                continue
+            acc = int_accept(base)
+            L = Langs([src, acc], extra_chars="0x")
+            d = L.with_prefix(L.dfa(src), "0x", keep)
+            if strip:
+                d = L.quotient(d, "0x"[:strip])
+            w = L.witness_not_in(d, L.dfa(acc))
+            want_base = 16 if keep else 10
+            r.check(w is None and base == want_base and (strip == 2) == keep, f"_value_to_int|{label}", f.loc(),
+                    f"{label} operands are converted with base {base} after stripping {strip} character(s); "
+                    + (f"the accepted spelling {('0x' if keep and strip else '') + (w or '')!r} would be rejected or misread" if w is not None else
+                       f"documented: base {want_base}"), {"base": base, "strip": strip})
+        return
     if iff is None:
         # no hex/decimal split: one conversion must then accept every spelling with its documented value
         base = None
